@@ -296,7 +296,9 @@ class NamedQubit:
                 from_size = int(alias_from.size)
             except JaqalError:
                 return
-            if alias_index >= from_size:
+            if isinstance(alias_index, float) and not alias_index.is_integer():
+                raise JaqalError(f"Qubit index {alias_index} is not an integer.")
+            if alias_index < 0 or alias_index >= from_size:
                 raise JaqalError("Index out of range.")
 
     def __hash__(self):
